@@ -66,8 +66,13 @@ def asm_job(job, td):
     for q in job.get('queries', []):
         A, L, S = set(q['A']), set(q['L']), set(q['S'])
         out = io.StringIO()
-        with contextlib.redirect_stdout(out):
-            h = get_breakpoint_handler(fjd, A, L, S)
+        try:
+            with contextlib.redirect_stdout(out):
+                h = get_breakpoint_handler(fjd, A, L, S)
+        except BaseException as e:  # noqa - resolving breakpoints must never raise, whatever characters a substring holds
+            res['queries'].append({'A': list(A), 'L': list(L), 'S': list(S), 'exc': type(e).__name__ + ': ' + str(e)[:200],
+                                   'bps': [], 'warnings': [], 'other_output': [], 'l2a_equal': True})
+            continue
         warns = re.findall(r"^Warning:  Breakpoint label (.*) can't be found!$", out.getvalue(), re.M)
         other = [ln for ln in out.getvalue().splitlines() if ln and not ln.startswith('Warning:  Breakpoint label ')]
         res['queries'].append({'A': list(A), 'L': list(L), 'S': list(S),
@@ -96,13 +101,60 @@ def roundtrip_job(job, td):
     return {'results': out}
 
 
+def big_roundtrip_job(job, td):
+    """a label table whose JSON has `mib` MiB: a block of distinctive names at the start, incompressible random names in
+    between, the same block (other keys, same long text) at the end - the text recurs at a distance above the target size.
+    Built here (not shipped through json files).  Also resolves breakpoints against the saved file."""
+    import random
+    rng = random.Random(job['seed'])
+    target = int(job['mib'] * (1 << 20))
+    block = ['m_%040x_%d' % (rng.getrandbits(160), k) for k in range(job.get('block', 60))]
+    t = {}
+    addr = 0
+    for n in block:
+        t['f1:l9:marker---' + n] = addr
+        addr += 128
+    size = sum(len(k) + 12 for k in t)
+    i = 0
+    while size < target:
+        k = 'f1:l%d:rep%d:filler---%064x' % (10 + i % 7, i, rng.getrandbits(256))
+        t[k] = addr
+        addr += 128
+        size += len(k) + 4 + len(str(addr)) + 2
+        i += 1
+    for n in block:
+        t['f1:l11:marker---' + n] = addr
+        addr += 128
+    p = Path(td) / 'big.fjd'
+    r = {'entries': len(t), 'json_bytes': len(json.dumps(t))}
+    try:
+        save_debugging_labels(p, t)
+        r['file_bytes'] = p.stat().st_size
+        back = load_debugging_labels(p)
+        r['equal'] = back == t
+        r['same_order'] = r['equal'] and all(a == b for a, b in zip(back, t))
+        r['types_ok'] = all(type(k) is str and type(v) is int for k, v in back.items())
+        # the debugger's path: exact label at the start, substring of a name of the block (matches start and end copies)
+        exact = 'f1:l9:marker---' + block[0]
+        sub = block[-1][2:30]
+        with contextlib.redirect_stdout(io.StringIO()):
+            h = get_breakpoint_handler(p, {5}, {exact}, {sub})
+        want = {5, t[exact]} | {a for k, a in t.items() if sub in k}
+        r['bp_ok'] = set(h.breakpoints) == want and len(want) == 4
+        r['bps'] = sorted(h.breakpoints)
+    except BaseException as e:  # noqa
+        r['exc'] = type(e).__name__ + ': ' + str(e)[:300]
+    return {'results': [r]}
+
+
 def main():
     sys.set_int_max_str_digits(0)
     jobs = json.loads(Path(sys.argv[1]).read_text())
     out = []
     with tempfile.TemporaryDirectory(dir=os.getcwd()) as td:
         for j in jobs:
-            out.append(asm_job(j, td) if j['kind'] == 'asm' else roundtrip_job(j, td))
+            out.append(asm_job(j, td) if j['kind'] == 'asm' else
+                       big_roundtrip_job(j, td) if j['kind'] == 'roundtrip_big' else roundtrip_job(j, td))
     Path(sys.argv[2]).write_text(json.dumps(out))
 
 
